@@ -234,7 +234,7 @@ func (cfg *ChainCfg) chains1(v ssa.Value, depth int, busy map[ssa.Value]bool, bi
 			return []Chain{{}}
 		}
 		// a module function returning a container: look into its returns
-		if callee := x.Call.StaticCallee(); callee != nil && callee.Blocks != nil && InModule(callee) && depth > 0 {
+		if callee := x.Call.StaticCallee(); callee != nil && callee.Blocks != nil && InModule(callee) && (depth > 0 || singleModuleCallee(cfg.P, x) != nil) {
 			b := binding{}
 			for i, p := range callee.Params {
 				if i < len(x.Call.Args) {
@@ -245,7 +245,11 @@ func (cfg *ChainCfg) chains1(v ssa.Value, depth int, busy map[ssa.Value]bool, bi
 			for _, ret := range Returns(callee) {
 				for i := range ret.Results {
 					if types.Identical(ret.Results[i].Type(), x.Type()) {
-						out = append(out, cfg.chains(RetVal(ret, i), depth-1, busy, b)...)
+						d2 := depth - 1
+						if d2 < 0 {
+							d2 = 0
+						}
+						out = append(out, cfg.chains(RetVal(ret, i), d2, busy, b)...)
 					}
 				}
 			}
@@ -279,6 +283,26 @@ func (cfg *ChainCfg) chains1(v ssa.Value, depth int, busy map[ssa.Value]bool, bi
 	case *ssa.TypeAssert:
 		return cfg.chains(x.X, depth, busy, bind)
 	case *ssa.Extract:
+		// a container returned (with an error) by a helper of the same package
+		if call, ok := x.Tuple.(*ssa.Call); ok {
+			if callee := singleModuleCallee(cfg.P, call); callee != nil {
+				b := binding{}
+				for i, p := range callee.Params {
+					if i < len(call.Call.Args) {
+						b[p] = cfg.chains(call.Call.Args[i], depth, busy, bind)
+					}
+				}
+				var out []Chain
+				for _, ret := range Returns(callee) {
+					if x.Index < len(ret.Results) && !IsNilConst(RetVal(ret, x.Index)) {
+						out = append(out, cfg.chains(RetVal(ret, x.Index), depth, busy, b)...)
+					}
+				}
+				if len(out) > 0 {
+					return dedupChains(out)
+				}
+			}
+		}
 		return []Chain{{Leaf{"unknown", "result:" + Prov(x), ""}}}
 	}
 	return []Chain{{Leaf{"unknown", "?" + Prov(v), ""}}}
